@@ -65,6 +65,7 @@ pub struct CK {
     ids: Vec<String>,
     dup: bool,
     max_cp: usize,
+    def_ttl: u64,
 }
 
 impl CK {
@@ -77,12 +78,17 @@ impl CK {
         set_clock_ms(Some(BASE_MS + 1));
         let max_cp = cfg["MaxCp"].as_u64().unwrap_or(2) as usize;
         // variant: the in-memory backend (same operations, same expected observations; no files)
-        let s = if cfg["backend"].as_str() == Some("memory") {
+        let def_ttl = cfg["DefTtl"].as_u64().unwrap_or(0);
+        let s = if def_ttl > 0 {
+            // StateConfig.enable_ttl: plain puts are stamped with the default TTL
+            StateStore::with_config(StateConfig { backend: StateBackend::File { path: dir.clone() }, max_checkpoints: max_cp, enable_ttl: true,
+                                                  default_ttl: Duration::from_millis(def_ttl), ..Default::default() })
+        } else if cfg["backend"].as_str() == Some("memory") {
             StateStore::with_config(StateConfig { backend: StateBackend::Memory, max_checkpoints: max_cp, ..Default::default() })
         } else {
             open_store(&dir, max_cp)
         };
-        CK { s, dir, keys, now: 1, ids: vec![], dup: false, max_cp }
+        CK { s, dir, keys, now: 1, ids: vec![], dup: false, max_cp, def_ttl }
     }
     fn obs(&self, ok: bool) -> Value {
         let mut c = Map::new();
@@ -131,7 +137,12 @@ impl Model for CK {
             "checkpoint_fails" => with_file_writes_failing(|| self.s.checkpoint("cp")).is_ok(),
             "reopen" => {
                 // a restart: a new store on the same directory (the old object is dropped)
-                self.s = open_store(&self.dir, self.max_cp);
+                self.s = if self.def_ttl > 0 {
+                    StateStore::with_config(StateConfig { backend: StateBackend::File { path: self.dir.clone() }, max_checkpoints: self.max_cp, enable_ttl: true,
+                                                          default_ttl: Duration::from_millis(self.def_ttl), ..Default::default() })
+                } else {
+                    open_store(&self.dir, self.max_cp)
+                };
                 true
             }
             "tick" => {
